@@ -89,10 +89,10 @@ for _pid in list(PROPS):
 _BOUNDED_NOTE = " Bounded stand-in (replay crate, real API vs an independent reference written from the RFCs/property text): labelled bounded, never counted as proved."
 for _pid in PROPS:
     PROPS[_pid]["level_note"] += _BOUNDED_NOTE
-PROPS["C15"] = {"units": [], "kani": [], "replay": ["bounded"], "engine": "replay", "title": "Unordered equality", "level": "exploration",
-    "level_text": "BOUNDED ONLY: Object::unordered_eq is two nested all/any closure chains over custom iterators (no vstd spec, closures calling back into trait methods), outside Verus; Kani cannot take hashbrown-backed objects at useful sizes. All pairs of objects with <= 3 (thorough: 4) entries over 2 keys and 2 values, one nesting level, compared with the multiset definition.",
+PROPS["C15"] = {"units": ["nav"], "kani": [], "replay": ["bounded"], "engine": "replay", "title": "Unordered equality", "level": "exploration",
+    "level_text": "BOUNDED (the level claimed). A fragment is under contract: the value-level dispatcher `impl UnorderedPartialEq for Value` is verified (unit nav, as an inherent method) to require equal kinds, equal scalars, and to defer arrays / objects to their own comparisons, which are ASSUMED there. The deciding part: Object::unordered_eq is two nested all/any closure chains over custom iterators (no vstd spec, closures calling back into trait methods), outside Verus; Kani cannot take hashbrown-backed objects at useful sizes. All pairs of objects with <= 3 (thorough: 4) entries over 2 keys and 2 values, one nesting level, compared with the multiset definition.",
     "level_note": "bounded exploration, not a proof; oracle = native multiset matching in replay/src/checks_object.rs",
-    "technique": "bounded exhaustive comparison with a reference definition (stand-in; no contract within reach)", "design_ref": "DESIGN.md §6.7"}
+    "technique": "bounded exhaustive comparison with a reference definition (stand-in: the Vec / Object comparisons are closure chains outside the verifier); the value-level dispatcher alone is under contract (Verus)", "design_ref": "DESIGN.md §6.7"}
 PROPS["C09"] = {"units": ["object", "print"], "kani": [], "replay": ["bounded"], "title": "Canonicalization conforms to RFC 8785", "level": "proof",
     "level_text": "Proved: Object::sort re-establishes the index invariant and orders entries by the comparator it is given (permutation preserved); string_literal emits exactly the RFC 8785 minimal escaping. The UTF-16 member order and the ES6 number rendering are decided only by the bounded stand-in (keys separating UTF-16 from code-point order, the RFC 8785 number table).",
     "level_note": "number clause = dependency behaviour (json-number/ryu-js), assumed; encode_utf16 comparator assumed; the recursive canonicalize_with is not under contract" + _BOUNDED_NOTE,
